@@ -252,7 +252,9 @@ func (wa *withAttributes) RemoveAllAttributeAssignments() {
 func (wa *withAttributes) AttributeAssignments() []*AttributeAssignment {
 	attSlice := wa.attAssignments.getValues()
 	slices.SortFunc(attSlice, func(a, b *AttributeAssignment) int {
-		return strings.Compare(a.attribute.Name(), b.attribute.Name())
+		return orCompare(strings.Compare(a.attribute.Name(), b.attribute.Name()), func() int {
+			return compareEntityIDs(a.attribute.EntityID(), b.attribute.EntityID())
+		})
 	})
 	return attSlice
 }
